@@ -191,6 +191,13 @@ func verifyFunc(w *World, key string) *FuncResult {
 			}
 		}
 	}
+	for _, ck := range sortedKeys(g.atSkipped) {
+		if g.atSeen[ck] == 0 {
+			g.errorf("at-call clause %s could not be evaluated at any of its call sites (unknown identifier?)", ck)
+		} else {
+			g.note(fmt.Sprintf("at-call clause %s does not apply to %d call site(s) where one of its locals does not exist", ck, g.atSkipped[ck]))
+		}
+	}
 	res.exceptTerms = g.exceptTerms
 	res.Obls = g.obls
 	res.Errs = append(res.Errs, g.errs...)
